@@ -26,6 +26,24 @@ PYMOD = {
 
 
 FLOAT_SENSITIVE = {"py_common.cprNL", "c_common.cprNL"}
+# ill-conditioned float functions: the generated definition rounds only inside the libm calls (the arithmetic between
+# them is exact), the real code rounds every operation; (absolute, relative, modulus) within which the two agree
+# (0.2 m: the law of cosines resolves acos(1 - 2^-53) * 6371 km = 0.095 m at best)
+FLOAT_TOL = {"aero.distance": (0.2, 1e-6, None), "aero.bearing": (1e-5, 0.0, 360.0)}
+
+
+def within_tol(name, r, g):
+    t = FLOAT_TOL.get(name)
+    if t is None:
+        return False
+    try:
+        x, y = float(Fraction(r)), float(Fraction(g))
+    except Exception:
+        return False
+    d = abs(x - y)
+    if t[2]:
+        d = min(d, abs(t[2] - d))
+    return d <= t[0] + t[1] * max(abs(x), abs(y))
 
 
 def pymod(ns):
@@ -220,6 +238,9 @@ class GenTie:
         st["gen_lines"] += 1
         st["gen_functions"].add(name)
         if not core.outputs_equal(r, g) and not (eq is not None and eq(r, g)):
+            if within_tol(name, r, g):
+                st["gen_float_differences"] = st.get("gen_float_differences", 0) + 1
+                return
             if name in FLOAT_SENSITIVE:
                 # the generated definition evaluates libm calls in double precision but the arithmetic around them exactly:
                 # at a rounding boundary (an NL transition latitude) the two may legitimately differ
